@@ -30,13 +30,13 @@ func TestMain(m *testing.M) {
 }
 
 type Ev struct {
-	Kind  string         `json:"kind"` // report mod del est
-	Sess  int            `json:"sess"`
-	URRs  []uint32       `json:"urrs,omitempty"`
-	Trig  uint32         `json:"trig,omitempty"`
-	Rules []stack.RuleOp `json:"rules,omitempty"`
-	N     int            `json:"n,omitempty"`
-	SendFail bool        `json:"send_fail,omitempty"` // mod: the first transmission of the response fails; the request is sent again // report: so many notifications in a row (the SMF answers none of them: they all stay outstanding)
+	Kind     string         `json:"kind"` // report mod del est
+	Sess     int            `json:"sess"`
+	URRs     []uint32       `json:"urrs,omitempty"`
+	Trig     uint32         `json:"trig,omitempty"`
+	Rules    []stack.RuleOp `json:"rules,omitempty"`
+	N        int            `json:"n,omitempty"`
+	SendFail bool           `json:"send_fail,omitempty"` // mod: the first transmission of the response fails; the request is sent again // report: so many notifications in a row (the SMF answers none of them: they all stay outstanding)
 }
 
 type Case struct {
@@ -60,14 +60,14 @@ type inc struct {
 }
 
 type stats struct {
-	multiCarrier bool
-	recreated    bool
-	reports      int
-	outstanding  int // report requests sent and never answered
-	unsendable   int // notifications for which no report request could be sent
+	multiCarrier  bool
+	recreated     bool
+	reports       int
+	outstanding   int  // report requests sent and never answered
+	unsendable    int  // notifications for which no report request could be sent
 	lostAnswers   int  // Modification Responses that reached the SMF through a retransmission of the request only
 	refusedCreate bool // a Create URR for a URR that exists
-	sendFailed   int // report requests that reached the SMF as a retransmission only (first transmission failed locally)
+	sendFailed    int  // report requests that reached the SMF as a retransmission only (first transmission failed locally)
 }
 
 // generator-side bookkeeping (assumes fault-free execution)
